@@ -524,17 +524,10 @@ MUTANTS = [
     m('C10-resume-skips-continue', 'C10', ['R3'], E + 'workflows.py',
       "        cmds = wf_ctrl.continue_workflow()\n\n"
       "        self._continue_workflow(cmds)\n\n"
-      "        # If workflow execution is a subworkflow,\n"
-      "        # schedule update to the task execution.\n"
-      "        if self.wf_ex.task_execution_id:\n"
-      "            # Import the task_handler module here to avoid circular "
-      "reference.\n"
-      "            from mistral.engine import task_handler\n\n"
-      "            task_handler.schedule_on_action_update(self.wf_ex)\n\n"
-      "    def prepare_input",
+      "        # Import the task_handler module here",
       "        cmds = wf_ctrl.continue_workflow()\n\n"
       "        if cmds:\n            self._continue_workflow(cmds)\n\n"
-      "    def prepare_input"),
+      "        # Import the task_handler module here"),
     m('C10-backlog-after-new', 'C10', ['R3'], E + 'dispatcher.py',
       "    # Run commands from the backlog.\n"
       "    _process_commands(wf_ex, _poll_commands_from_backlog(wf_ex))\n\n"
@@ -544,6 +537,33 @@ MUTANTS = [
       "    _process_commands(wf_ex, _poll_commands_from_backlog(wf_ex))"),
     m('C10-backlog-drops-unique-key', 'C10', ['R4'], W + 'commands.py',
       "        cmd.unique_key = cmd_dict.get('unique_key')\n", ""),
+    m('C10-join-starts-while-paused', 'C10', ['R6'], E + 'task_handler.py',
+      "        if states.is_paused_or_completed(wf_ex.state):\n"
+      "            return\n\n        wf_spec = spec_parser."
+      "get_workflow_spec_by_execution_id(\n"
+      "            task_ex.workflow_execution_id\n        )\n\n"
+      "        wf_ctrl = wf_base.get_controller(wf_ex, wf_spec)\n\n"
+      "        with db_api.named_lock(task_ex.id):",
+      "        if states.is_completed(wf_ex.state):\n"
+      "            return\n\n        wf_spec = spec_parser."
+      "get_workflow_spec_by_execution_id(\n"
+      "            task_ex.workflow_execution_id\n        )\n\n"
+      "        wf_ctrl = wf_base.get_controller(wf_ex, wf_spec)\n\n"
+      "        with db_api.named_lock(task_ex.id):"),
+    m('C10-resume-does-not-recheck-joins', 'C10', ['R6'], E + 'workflows.py',
+      "        for t_ex in waiting_task_execs:\n"
+      "            task_handler._schedule_refresh_task_state(t_ex.id)\n",
+      "        for t_ex in waiting_task_execs:\n"
+      "            pass\n"),
+    m('C10-resume-rechecks-before-dispatch', 'C10', ['R6'],
+      E + 'workflows.py',
+      "        self._continue_workflow(cmds)\n\n"
+      "        # Import the task_handler module here to avoid circular "
+      "reference.\n"
+      "        from mistral.engine import task_handler\n",
+      "        # Import the task_handler module here to avoid circular "
+      "reference.\n"
+      "        from mistral.engine import task_handler\n"),
     # ---------------------------------------------------------------- C11
     m('C11-dispatch-after-stop', 'C11', ['R1'], E + 'dispatcher.py',
       "        if states.is_completed(wf_ex.state):\n            break\n\n", ""),
